@@ -4,6 +4,7 @@ from __future__ import annotations
 import json
 import os
 import random
+import subprocess
 from concurrent.futures import ProcessPoolExecutor
 
 from build import prod_depth, prod_kinds, prod_sx
@@ -148,7 +149,7 @@ def replay_case_impl(case: ProdCase) -> None:
 
 
 def model_answers(case: ProdCase) -> tuple[dict[int, str], list[str]]:
-    blocks = run_model(case.lines())
+    blocks = run_model(case.lines(), timeout=180)
     nd = len(case.specs)
     nr = len(case.regular_lines())
     defs = {pid: (blocks[2 + i][0] if blocks[2 + i] else '') for i, pid in enumerate(case.specs)}
@@ -474,7 +475,12 @@ class ProdProp:
         if case.meta.get('oracle_only'):
             mdefs, mres, agrees = {}, [], False
         else:
-            mdefs, mres = model_answers(case)
+            try:
+                mdefs, mres = model_answers(case)
+            except subprocess.TimeoutExpired:
+                # the model itself needs minutes for this case (nested bounded searches that find nothing): not judged
+                run.stats['model_too_slow'] = run.stats.get('model_too_slow', 0) + 1
+                return
             inexact = self.pid == 'C13' and any(has_inexact_amount(sp) for sp in case.specs.values())
             agrees = len(mres) == len(case.impl) and all(self.same(a, b, inexact) for a, b in zip(case.impl, mres))
         run.stats['inconclusive_watchdog'] = run.stats.get('inconclusive_watchdog', 0) + case.meta.get('inconclusive', 0)
@@ -522,11 +528,36 @@ class ProdProp:
                                             {**case.to_json(), 'broken': 'correspondence prod/define'}))
         for i, ((pid, dt), a, b) in enumerate(zip(case.queries, case.impl, mres)):
             if not self.same(a, b, self.pid == 'C13' and has_inexact_amount(case.specs[pid])):
+                if a == 'err DIVERGED' and self.pid != 'C16':
+                    # the short watchdog of triggers that contain a filtered interval cut off a search the model finishes:
+                    # ask again, alone, with a long budget, before calling it a difference
+                    a2 = self.confirm_diverged(case, pid, i)
+                    if a2 is not None and self.same(a2, b, self.pid == 'C13' and has_inexact_amount(case.specs[pid])):
+                        run.stats['diverged_confirmed_slow'] = run.stats.get('diverged_confirmed_slow', 0) + 1
+                        continue
                 run.findings.append(Finding(
                     'correspondence',
                     f'producer model and code differ in zone {case.tz} for get_next({dt}) of {prod_sx(case.specs[pid])[:200]}: code {a} / model {b}',
                     {**case.to_json(), 'broken': 'correspondence prod/' + self.pid, 'query': i}))
                 break
+
+    def confirm_diverged(self, case: ProdCase, pid: int, qi: int) -> str | None:
+        """replay the queries of trigger `pid` up to query `qi` on a fresh object with a 60 s budget per query"""
+        from prod_impl import ProdImpl
+        impl = ProdImpl(case.tz, case.seed, budget_s=60.0)
+        try:
+            if impl.define(pid, case.specs[pid]) != 'ok':
+                return None
+            impl.risky[pid] = False
+            r = None
+            for (p2, dt2) in case.queries[:qi + 1]:
+                if p2 == pid:
+                    r = impl.next(pid, dt2)
+            return r
+        except BaseException:  # noqa: BLE001
+            return None
+        finally:
+            impl.close()
 
     def same(self, a: str, b: str, one_ns: bool = False) -> bool:
         if one_ns and a.startswith('ok') and b.startswith('ok') and abs(int(a.split()[1]) - int(b.split()[1])) <= 1:
@@ -536,6 +567,10 @@ class ProdProp:
         # the model reports DIVERGED when its fuel is used up
         nores = {'err DIVERGED', 'err ValueError', 'err OverflowError'}
         if a in nores and b == 'err DIVERGED':
+            return True
+        # a search that leaves whenever's range (years beyond 9999: ValueError / OverflowError) and a search that uses up
+        # the loop bound of the model (unbounded integers) both found no occurrence
+        if a in ('err ValueError', 'err OverflowError') and b == 'err InfiniteLoopDetectedError':
             return True
         # the short watchdog of producers that contain a filtered interval may also cut off a slow but
         # bounded search that ends in InfiniteLoopDetectedError: inconclusive, not a difference
